@@ -13,7 +13,10 @@ struct GenOpts {
     int max_cells = 4, max_elems = 5;
     int64_t coord_range = 4000;  // in grid units
     double grid = 1.0 / 1024;    // one grid unit in user units
+    bool offgrid = false;        // add quarter-grid fractions to origins / offsets (rounding of sums)
 };
+
+static inline double qfrac(Rng& g, const GenOpts& o) { return o.offgrid ? (double)g.below(4) * 0.25 : 0.0; }
 
 static inline char* dupstr(const std::string& s) { return copy_string(s.c_str(), NULL); }
 
@@ -47,11 +50,14 @@ static inline Polygon* gen_polygon(Rng& g, const GenOpts& o) {
     } else {
         for (int i = 0; i < n; i++) {
             int64_t x = cx + g.range(-300, 300), y = cy + g.range(-300, 300);
-            p->point_array.append(Vec2{x * o.grid, y * o.grid});
+            p->point_array.append(Vec2{(x + qfrac(g, o)) * o.grid, (y + qfrac(g, o)) * o.grid});
         }
         // avoid first == last (the reader would drop the last vertex: GDSII closes polygons)
         Array<Vec2>& pa = p->point_array;
-        if (pa[0] == pa[pa.count - 1]) pa[pa.count - 1].x += o.grid;
+        // also after rounding to the grid (off-grid vertices): the reader drops a closing duplicate
+        if (llround(pa[0].x / o.grid) == llround(pa[pa.count - 1].x / o.grid) &&
+            llround(pa[0].y / o.grid) == llround(pa[pa.count - 1].y / o.grid))
+            pa[pa.count - 1].x += 2 * o.grid;
     }
     return p;
 }
@@ -76,12 +82,12 @@ static inline void gen_repetition(Rng& g, const GenOpts& o, Repetition& r, bool 
             r.type = RepetitionType::Explicit;
             int n = 1 + (int)g.below(4);
             for (int i = 0; i < n; i++)
-                r.offsets.append(Vec2{(double)g.range(-400, 400) * o.grid, (double)g.range(-400, 400) * o.grid});
+                r.offsets.append(Vec2{((double)g.range(-400, 400) + qfrac(g, o)) * o.grid, ((double)g.range(-400, 400) + qfrac(g, o)) * o.grid});
         } break;
         case 3: {
             r.type = RepetitionType::ExplicitX;
             int n = 1 + (int)g.below(4);
-            for (int i = 0; i < n; i++) r.coords.append((double)g.range(-400, 400) * o.grid);
+            for (int i = 0; i < n; i++) r.coords.append(((double)g.range(-400, 400) + qfrac(g, o)) * o.grid);
         } break;
         default: {
             r.type = RepetitionType::ExplicitY;
@@ -124,7 +130,7 @@ static inline Label* gen_label(Rng& g, const GenOpts& o) {
     Label* l = (Label*)allocate_clear(sizeof(Label));
     l->init(rand_name(g, 12).c_str());
     l->tag = make_tag((uint32_t)g.below(60), (uint32_t)g.below(60));
-    l->origin = Vec2{(double)g.range(-o.coord_range, o.coord_range) * o.grid, (double)g.range(-o.coord_range, o.coord_range) * o.grid};
+    l->origin = Vec2{((double)g.range(-o.coord_range, o.coord_range) + qfrac(g, o)) * o.grid, ((double)g.range(-o.coord_range, o.coord_range) + qfrac(g, o)) * o.grid};
     static const Anchor as[] = {Anchor::NW, Anchor::N, Anchor::NE, Anchor::W, Anchor::O, Anchor::E, Anchor::SW, Anchor::S, Anchor::SE};
     l->anchor = as[g.below(9)];
     if (g.chance(50)) {
@@ -147,7 +153,7 @@ static inline Reference* gen_reference(Rng& g, const GenOpts& o, Cell* target, c
         r->name = copy_string(by_name, NULL);
     }
     r->magnification = 1;
-    r->origin = Vec2{(double)g.range(-o.coord_range, o.coord_range) * o.grid, (double)g.range(-o.coord_range, o.coord_range) * o.grid};
+    r->origin = Vec2{((double)g.range(-o.coord_range, o.coord_range) + qfrac(g, o)) * o.grid, ((double)g.range(-o.coord_range, o.coord_range) + qfrac(g, o)) * o.grid};
     if (g.chance(50)) {
         static const double mags[] = {1, 2, 0.5, 3};
         static const double rots[] = {0, M_PI / 2, M_PI, -M_PI / 2, M_PI / 4, 0.3};
@@ -187,7 +193,19 @@ static inline Library gen_library(Rng& g, const GenOpts& o) {
             } else if (kind == 2) {
                 Label* l = gen_label(g, o);
                 if (o.with_props) add_gds_props(g, l->properties);
-                if (o.with_reps && g.chance(25)) gen_repetition(g, o, l->repetition);
+                if (o.with_reps && g.chance(o.offgrid ? 70 : 25)) {
+                    gen_repetition(g, o, l->repetition);
+                    if (o.offgrid && l->repetition.type != RepetitionType::Explicit && g.chance(70)) {
+                        // off-grid origin + off-grid explicit offsets: the sum is rounded once
+                        l->repetition.clear();
+                        memset(&l->repetition, 0, sizeof l->repetition);
+                        l->repetition.type = RepetitionType::Explicit;
+                        int n = 1 + (int)g.below(4);
+                        for (int i = 0; i < n; i++)
+                            l->repetition.offsets.append(Vec2{((double)g.range(-400, 400) + qfrac(g, o)) * o.grid,
+                                                              ((double)g.range(-400, 400) + qfrac(g, o)) * o.grid});
+                    }
+                }
                 cell->label_array.append(l);
             } else {
                 Reference* r;
